@@ -228,6 +228,11 @@ def run_assert(case):
         class R(_Ref):
             tmp_dir = os.path.join(root, 'tmp')
         R.regenerate = {}
+        # the environment names another directory for failures: the explicitly configured one takes precedence
+        saved_env = os.environ.get('TDDA_FAIL_DIR')
+        if case.get('env_fail_dir', len(case['actual']) % 3 == 0):
+            os.makedirs(os.path.join(root, 'envfail'), exist_ok=True)
+            os.environ['TDDA_FAIL_DIR'] = os.path.join(root, 'envfail')
         r = R(assert_fn)
         kw = kw_of(case['opts'])
         exc = None
@@ -240,6 +245,11 @@ def run_assert(case):
                 r.assertTextFilesCorrect([actpath], [refpath], **kw)
         except Exception as e:   # noqa
             exc = e
+        finally:
+            if saved_env is None:
+                os.environ.pop('TDDA_FAIL_DIR', None)
+            else:
+                os.environ['TDDA_FAIL_DIR'] = saved_env
         after = snapshot(root)
         return {'passed': res.get('passed'), 'message': res.get('message'), 'exc': exc,
                 'before': before, 'after': after, 'root': root, 'refpath': refpath, 'actpath': actpath}
